@@ -3,7 +3,7 @@ import itertools
 import re
 import gen
 from histcheck import chain_case, run_cases
-from props.evalcommon import standard_run, standard_replay
+from props.evalcommon import standard_run, standard_replay, small_scope
 
 PID = "C12"
 W = {"repeat": 6, "interp": 1, "output": 0.5, "ref": 0.5, "encode": 0.3}
@@ -128,7 +128,7 @@ def run(rep):
                  "document-level $repeat (count 0-5, 1-3 named counts, bodies using $repeat / {$repeat} / {$repeat:name} in values, "
                  "interpolations, lists, nested maps; optional upper layer overriding the count) judged by the model and by "
                  "evaluating the hand-expanded documents on the implementation; plus nested list/map repeats and malformed counts "
-                 "judged by the model; non-trivial = contains $repeat", oracle=oracle, batch_aux=batch_aux)
+                 "judged by the model; non-trivial = contains $repeat", oracle=oracle, batch_aux=batch_aux, extra_gens=[small_scope(PID)])
 
 
 def replay(rep, payload):
